@@ -16,8 +16,8 @@ RULE = ("real client pair + real mailbox server on SimNet; server `message` resp
         "duplicate or effective drop happened; distinct = distinct scheduler decision traces.")
 ASSUMPTIONS = ["SimNet mirrors twisted tcp transport semantics (vt selftest)",
                "payloads carry a unique id so a delivery identifies its send"]
-FLOORS = {"quick": {"delivered": 200, "adv_out_of_order": 50, "adv_dups": 20, "drops": 20, "dilate_records_rx": 150, "gets_given_up": 60},
-          "thorough": {"delivered": 2000, "adv_out_of_order": 500, "adv_dups": 200, "drops": 200, "dilate_records_rx": 5000, "gets_given_up": 2000}}
+FLOORS = {"quick": {"malformed_set_code_first_KeyFormatError": 25, "sends_before_a_malformed_set_code": 4, "delivered": 200, "adv_out_of_order": 50, "adv_dups": 20, "drops": 20, "dilate_records_rx": 150, "gets_given_up": 60},
+          "thorough": {"malformed_set_code_first_KeyFormatError": 500, "sends_before_a_malformed_set_code": 60, "delivered": 2000, "adv_out_of_order": 500, "adv_dups": 200, "drops": 200, "dilate_records_rx": 5000, "gets_given_up": 2000}}
 
 
 def cases(tier, seed, prep=None):
